@@ -19,7 +19,7 @@ import (
 	"verif/harness/internal/obs"
 )
 
-const waitMax = 30 * time.Second
+const waitMax = 90 * time.Second
 
 type mworld struct {
 	t   *testing.T
